@@ -124,7 +124,7 @@ impl Property for C13 {
         "cases: pairs of values from a small universe (small/big ints, binaries as constant vs heap rope vs slice, named/unnamed/labelled tuples, nested, Ok, closures of one definition with equal and different int/binary captures, of another definition, a capture-less function) where one side is built locally and the other arrives as a process result, in a message to a comparer that captured the first, as a second spawn capture, from an in-memory module, or is built on a later REPL line after a same-shape tuple with different field types was merged; both orders of each comparison plus the reflexive one; refs minted by 1-4 processes (and the REPL process, across lines) returned and compared pairwise; handles of 1-3 processes obtained by the spawner, by `&.` in the body and by `&.` one and two calls deep, compared by the spawner and by a comparer process that captured them. The verdict vector must equal the model's structural equality, be symmetric and reflexive, and all minted refs must be pairwise distinct, under every sampled placement (1-6 workers) and schedule. Non-trivial: >=2 workers, >=1 out-of-order handled message, conclusive. Distinct = distinct (scenario shape, interleaving hash)."
     }
     fn required_probes(&self) -> Vec<&'static str> {
-        vec!["pair_via_process_result", "pair_via_message", "pair_via_spawn_capture", "pair_via_module", "pair_across_repl_lines", "refs_from_several_processes", "equal_pair_checked", "unequal_pair_checked", "mass_mint_over_2_16_refs_on_one_worker", "process_handles_from_several_call_depths", "function_values_compared"]
+        vec!["pair_via_process_result", "pair_via_message", "pair_via_spawn_capture", "pair_via_module", "pair_across_repl_lines", "refs_from_several_processes", "equal_pair_checked", "unequal_pair_checked", "mass_mint_over_2_16_refs_on_one_worker", "process_handles_from_several_call_depths", "function_values_compared", "compared_through_a_partial_view"]
     }
     fn generate(&self, rng: &mut Rng, _tier: Tier) -> Scenario {
         let mut h = crate::rng::Fnv::default();
@@ -140,6 +140,7 @@ impl Property for C13 {
         let mut eq_n = 0;
         let mut ne_n = 0;
         let mut fn_pairs = 0;
+        let mut partial_views = 0;
         for k in 0..npairs {
             let fa = rng.usize(FAMS.len());
             // bias towards equal families and near misses
@@ -224,12 +225,23 @@ impl Property for C13 {
             } else {
                 ne_n += 1;
             }
+            // the same comparison with one side seen through a partial type (`#(y: 'bin)`): the static
+            // view of a value must not decide the verdict
+            let has_x = |f: &Fam| f.key.starts_with("P{x") || f.key.starts_with("Q{x") || f.key.starts_with("{x:");
+            let partial = has_x(a) && has_x(b) && tr != 5;
+            if partial {
+                cur.push(format!("pf{k} = #(y: 'bin) {{ [~ =&a{k}] }}"));
+                cur.push(format!("[pv{k}] = b{k} pf{k}"));
+                cur.push(format!("[pw{k}] = a{k} pf{k}"));
+                partial_views += 1;
+            }
+            let (pe, pn) = if partial { (format!(", pv{k}, pw{k}"), format!(", {verdict}, Ok")) } else { (String::new(), String::new()) };
             if tr == 2 || tr == 3 {
-                cur.push(format!("e{k} = [v{k}, w{k}, s{k}, m{k}, n{k}]"));
-                expected.push(format!("[{verdict}, {verdict}, Ok, {verdict}, {verdict}]"));
+                cur.push(format!("e{k} = [v{k}, w{k}, s{k}, m{k}, n{k}{pe}]"));
+                expected.push(format!("[{verdict}, {verdict}, Ok, {verdict}, {verdict}{pn}]"));
             } else {
-                cur.push(format!("e{k} = [v{k}, w{k}, s{k}]"));
-                expected.push(format!("[{verdict}, {verdict}, Ok]"));
+                cur.push(format!("e{k} = [v{k}, w{k}, s{k}{pe}]"));
+                expected.push(format!("[{verdict}, {verdict}, Ok{pn}]"));
             }
         }
         // refs
@@ -367,7 +379,7 @@ impl Property for C13 {
             timing: false,
             io: false,
             fixed_faults: Default::default(),
-            expect: serde_json::json!({ "value": expected_s, "transports": transports, "minters": nmint, "equal": eq_n, "unequal": ne_n, "handles": nhp, "fn_pairs": fn_pairs }),
+            expect: serde_json::json!({ "value": expected_s, "transports": transports, "minters": nmint, "equal": eq_n, "unequal": ne_n, "handles": nhp, "fn_pairs": fn_pairs, "partial_views": partial_views }),
             shape: h.0,
             est_len: 100,
             min_quantum: 0,
@@ -383,6 +395,9 @@ impl Property for C13 {
         }
         if scn.expect["minters"].as_u64().unwrap_or(0) >= 2 {
             m.insert("refs_from_several_processes".into(), 1);
+        }
+        if scn.expect["partial_views"].as_u64().unwrap_or(0) >= 1 {
+            m.insert("compared_through_a_partial_view".into(), 1);
         }
         if scn.expect["fn_pairs"].as_u64().unwrap_or(0) >= 1 {
             m.insert("function_values_compared".into(), 1);
